@@ -57,6 +57,31 @@ def cargo_check(manifest, feats, no_default=True, extra_env=None):
     return p.returncode == 0, p.stdout[-3000:]
 
 
+def cargo_check_workspace(packages, feats):
+    """several workspace packages checked together: their features are unified as in a downstream
+    build that depends on all of them"""
+    cmd = ['cargo', 'check', '--offline', '--locked', '--manifest-path', f'{REPO}/Cargo.toml', '--target-dir', TARGET, '--quiet']
+    for p in packages:
+        cmd += ['-p', p]
+    if feats:
+        cmd += ['--features', ','.join(feats)]
+    env = dict(os.environ, CARGO_NET_OFFLINE='true')
+    env.pop('RUSTFLAGS', None)
+    p = subprocess.run(cmd, stdout=subprocess.PIPE, stderr=subprocess.STDOUT, text=True, env=env)
+    return p.returncode == 0, p.stdout[-3000:]
+
+
+# (packages, features): combinations across crates of the workspace
+WORKSPACE = [
+    (['zbus_xmlgen'], []),
+    (['zbus_xmlgen', 'zbus_xml'], []),
+    (['zbus_xmlgen', 'zvariant', 'zbus_macros'], ['zvariant/gvariant', 'zbus_macros/gvariant']),
+    (['zbus_xml', 'zvariant', 'zbus_macros'], ['zvariant/gvariant', 'zbus_macros/gvariant']),
+    (['zbus', 'zvariant', 'zbus_macros'], ['zvariant/gvariant', 'zbus_macros/gvariant']),
+    (['zbus_names', 'zvariant'], ['zvariant/gvariant', 'zvariant/option-as-array']),
+]
+
+
 def pairwise(features, rnd):
     """small set of subsets covering every pair of (feature on/off) values"""
     need = set()
@@ -79,7 +104,12 @@ def pairwise(features, rnd):
 
 def zbus_configs(rnd, n_random):
     cfgs = []
-    for rt in (['async-io'], ['tokio'], ['async-io', 'tokio'], ['async-io', 'vsock'], ['tokio', 'tokio-vsock']):
+    for rt in (['async-io'], ['tokio'], ['async-io', 'tokio']):
+        cfgs.append(rt)
+    # either vsock feature next to either runtime (the one that does not belong to the chosen
+    # runtime is simply unused): every combination builds
+    for rt in (['tokio', 'vsock'], ['async-io', 'tokio-vsock'], ['async-io', 'tokio', 'vsock', 'tokio-vsock'], ['async-io', 'vsock'], ['tokio', 'tokio-vsock'],
+               ['async-io', 'vsock', 'tokio-vsock'], ['tokio', 'vsock', 'tokio-vsock'], ['async-io', 'tokio', 'vsock'], ['async-io', 'tokio', 'tokio-vsock']):
         cfgs.append(rt)
     for row in pairwise(ZBUS_OPT, rnd)[: max(4, n_random // 2)]:
         cfgs.append(sorted(set(row + [rnd.choice(['async-io', 'tokio'])])))
@@ -128,6 +158,8 @@ def main():
         c = r['case']
         if c['kind'] == 'crate':
             configs.append(('crate', c['crate'], c['features'], f'{REPO}/{c["crate"]}/Cargo.toml', True))
+        elif c['kind'] == 'workspace':
+            configs.append(('workspace', c['crate'], c['features'], c['crate'].split('+'), False))
         else:
             deps = [tuple(x) for x in c['deps']]
             configs.append(('downstream', 'downstream', c['deps'], downstream(tmp, 0, deps), False))
@@ -144,9 +176,13 @@ def main():
             configs.append(('crate', 'zvariant', fs, f'{REPO}/zvariant/Cargo.toml', True))
         zb = zbus_configs(rnd, 2 if quick else 60)
         if quick:
-            zb = zb[:3] + zb[5:5 + 3]
+            zb = zb[:8] + zb[12:12 + 3]
         for fs in zb:
             configs.append(('crate', 'zbus', fs, f'{REPO}/zbus/Cargo.toml', True))
+        ws = WORKSPACE if not quick else WORKSPACE[:1] + rnd.sample(WORKSPACE[1:], 2) + [WORKSPACE[2]]
+        for pk, fs in ws:
+            if not any(c[0] == 'workspace' and c[1] == '+'.join(pk) and c[2] == fs for c in configs):
+                configs.append(('workspace', '+'.join(pk), fs, pk, False))
         # downstream crates mixing feature selections of several workspace crates
         nd = 2 if quick else 16
         for k in range(nd):
@@ -164,8 +200,11 @@ def main():
     seen_known = set()
     nontrivial = set()
     for kind, crate, feats, manifest, nodef in configs:
-        ok, out = cargo_check(manifest, feats if kind == 'crate' else [], nodef)
-        desc = {'kind': kind, 'crate': crate, 'features': feats} if kind == 'crate' else {'kind': kind, 'deps': feats}
+        if kind == 'workspace':
+            ok, out = cargo_check_workspace(manifest, feats)
+        else:
+            ok, out = cargo_check(manifest, feats if kind == 'crate' else [], nodef)
+        desc = {'kind': kind, 'crate': crate, 'features': feats} if kind in ('crate', 'workspace') else {'kind': kind, 'deps': feats}
         key = None
         if not ok:
             # classify: downstream crate that enables zvariant/gvariant next to zbus
